@@ -212,3 +212,220 @@ for (la, lb) in [(a_, b_) for a_ in range(0, 4) for b_ in range(0, 4)]:
     unit(f"kernels.poly_add_assign_scaled{tag}", PF, "<Polynomial as AddAssign<(BlsScalar,&'aPolynomial)>>::add_assign",
          [("self", mk_poly("a", la)), ("arg", (lambda lb=lb: VTuple([Sym("f"), mk_poly("b", lb)()])))],
          binop_contract(1), out_poly(self_sel))
+
+
+# ------------------------------------------------------------------------------------------------ FFT kernels (instances n = 2^k)
+# omega is a SYMBOL w with the defining relation of a primitive n-th root of unity for n = 2^k >= 2:  w^(n/2) == -1
+# (hence w^n == 1 and sum_i w^(i d) == 0 for d != 0 mod n).  Both sides are reduced with that single rule before comparison.
+DM = "src/fft/domain.rs"
+
+
+def reduce_root(p, var, n):
+    """normal form modulo var^(n/2) + 1"""
+    p = P(p)
+    if n < 2:
+        return p.subst({var: C(1)})
+    h = n // 2
+    out = {}
+    from vlib.poly import R_BLS
+    for m, c in p.norm().items():
+        e = dict(m).get(var, 0)
+        q, r = divmod(e, h)
+        m2 = tuple(sorted((v, k) for v, k in ((v, (r if v == var else k)) for v, k in m) if k))
+        out[m2] = (out.get(m2, 0) + (c if q % 2 == 0 else -c)) % R_BLS
+    return Poly({m: c for m, c in out.items() if c})
+
+
+def c_pow(it, recv, a):
+    from vlib.ring import _deref
+    e = a[0]
+    if isinstance(e, VArr) and len(e.items) == 4 and all(isinstance(x, int) for x in e.items) and e.items[1:] == [0, 0, 0] and e.items[0] <= 1 << 16:
+        return P(_deref(recv)) ** e.items[0]
+    return NotImplemented
+
+
+FFTC = {".pow": c_pow, ".pow_vartime": c_pow}
+
+
+def dft(a, w, n):
+    return [sum((P(a[j]) * (P(w) ** (i * j)) for j in range(n)), P(0)) for i in range(n)]
+
+
+def mk_arr(name, k):
+    return lambda: VArr([Sym(f"{name}{i}") for i in range(k)], "slice")
+
+
+def c_serial_fft(n):
+    def c(it, recv, a):
+        """a'_i = sum_j a_j w^(i j)   (the DFT over the subgroup generated by w)"""
+        arr = a[0]
+        vals = dft(list(arr.items), Sym("w"), n)
+        for i in range(n):
+            arr.items[i] = vals[i]
+        return UNIT
+    return c
+
+
+def out_fft(n, var="w"):
+    def out(res, args, ctx):
+        return {"a": [reduce_root(x, var, n) for x in args[0].items], "exits": list(ctx.exits)}
+    return out
+
+
+for lg in range(0, 6):
+    n_ = 1 << lg
+    u = unit(f"kernels.serial_fft[n={n_}]", DM, "alloc::serial_fft", [("a", mk_arr("a", n_)), ("omega", sym("w")), ("log_n", (lambda lg=lg: lg))],
+             c_serial_fft(n_), out_fft(n_))
+    u.extra_contracts = FFTC
+
+
+# ---- EvaluationDomain::{fft, ifft, coset_fft, coset_ifft}: resize to the domain, transform, scale / shift
+def mk_domain(n):
+    lg = n.bit_length() - 1
+    return lambda: VStruct("EvaluationDomain", {"size": n, "log_size_of_group": lg, "size_as_field_element": Sym("n_field"), "size_inv": Sym("n_inv"),
+                                                "group_gen": Sym("w"), "group_gen_inv": Sym("wi"), "generator_inv": Sym("gi")})
+
+
+def c_best_fft(it, recv, a):
+    """best_fft(a, omega, log_n): the DFT of a w.r.t. omega (serial_fft for |a| < 2^12: units kernels.best_fft / kernels.serial_fft;
+    the rayon paths for larger inputs are NOT under contract)"""
+    arr, om, lg = a
+    n = len(arr.items)
+    if n != 1 << lg:
+        it.ctx.exits.append(("panic", "assert_eq!(n, 1 << log_n) fails"))
+        return UNIT
+    vals = dft(list(arr.items), om, n)
+    for i in range(n):
+        arr.items[i] = vals[i]
+    return UNIT
+
+
+def par_as_serial(it, recv, a):
+    """ASSUMED (rayon): par_iter_mut().for_each(f) applies f exactly once to every element; f touches only its own element"""
+    from vlib.ring import VRefCell
+    return VIter([VRefCell(recv, i) for i in range(len(recv.items))])
+
+
+DOMC = dict(FFTC)
+DOMC.update({"best_fft": c_best_fft, ".par_iter_mut": par_as_serial, "GENERATOR": None})
+DOMC.pop("GENERATOR")
+
+
+def c_dom(kind, n, m):
+    def c(it, recv, a):
+        """input shorter than the domain is zero-padded, longer input is CUT to the domain size (callers never pass one)"""
+        src = [P(x) for x in a[0].items][:n] + [P(0)] * max(0, n - m)
+        w, wi, ninv, g, gi = Sym("w"), Sym("wi"), P(Sym("n_inv")), P(Sym("g")), P(Sym("gi"))
+        if kind == "fft":
+            out = dft(src, w, n)
+        elif kind == "ifft":
+            out = [x * ninv for x in dft(src, wi, n)]
+        elif kind == "coset_fft":
+            out = dft([src[j] * (g ** j) for j in range(len(src))], w, n)
+        else:
+            out = [x * ninv * (gi ** i) for i, x in enumerate(dft(src, wi, n))]
+        return VArr(out, "vec")
+    return c
+
+
+def out_dom(n, var):
+    return lambda res, args, ctx: {"result": [reduce_root(x, var, n) for x in res.items], "exits": list(ctx.exits)}
+
+
+for n_ in (1, 2, 4, 8):
+    for m_ in sorted({0, 1, n_ - 1, n_, n_ + 1} - {-1}):
+        for kind, var in (("fft", "w"), ("ifft", "wi"), ("coset_fft", "w"), ("coset_ifft", "wi")):
+            pname = "coeffs" if "ifft" not in kind else "evals"
+            u = unit(f"kernels.domain.{kind}[n={n_},len={m_}]", DM, f"alloc::EvaluationDomain::{kind}", [("self", mk_domain(n_)), (pname, mk_arr("a", m_))],
+                     c_dom(kind, n_, m_), out_dom(n_, var), consts={"GENERATOR": Sym("g")})
+            u.extra_contracts = DOMC
+
+
+# ---- best_fft (std build): below the parallel threshold it IS serial_fft
+def c_best_fft_small(n):
+    def c(it, recv, a):
+        it.ctx.event("serial_fft", canon(a[0]), canon(a[1]), canon(a[2]))
+        return UNIT
+    return c
+
+
+for lg in (0, 1, 3, 5):
+    n_ = 1 << lg
+    u = unit(f"kernels.best_fft[n={n_}]", DM, "alloc::best_fft", [("a", mk_arr("a", n_)), ("omega", sym("w")), ("log_n", (lambda lg=lg: lg))],
+             c_best_fft_small(n_), lambda res, args, ctx: {"effects": list(ctx.log), "exits": list(ctx.exits)})
+    u.extra_contracts = {"serial_fft": lambda it, recv, a: (it.ctx.event("serial_fft", canon(a[0]), canon(a[1]), canon(a[2])), UNIT)[1]}
+
+
+def lemma_fft_round_trip():
+    """Contract-level lemma: with wi = w^-1 (= w^(n-1)), n_inv = 1/n and gi = 1/g, the four transforms are mutually inverse:
+    ifft(fft(a)) == a and coset_ifft(coset_fft(a)) == a  (exact, modulo w^(n/2) == -1), for n = 1, 2, 4, 8, 16."""
+    from vlib.poly import R_BLS
+    obs = []
+    for n in (1, 2, 4, 8, 16):
+        a = [P(Sym(f"a{i}")) for i in range(n)]
+        w = P(Sym("w"))
+        ninv = C(pow(n, -1, R_BLS))
+        wi = w ** (n - 1) if n > 1 else P(1)
+        ok = True
+        f = dft(a, Sym("w"), n)
+        back = [sum((f[j] * (wi ** (i * j)) for j in range(n)), P(0)) * ninv for i in range(n)]
+        for i in range(n):
+            if not (reduce_root(back[i], "w", n) - a[i]).is_zero():
+                ok = False
+        # coset: g, gi with g*gi = 1: the shifts cancel termwise  (g^j on the way in, gi^j on the way out)
+        g, gi = P(Sym("g")), P(Sym("gi"))
+        cf = dft([a[j] * (g ** j) for j in range(n)], Sym("w"), n)
+        cback = [sum((cf[j] * (wi ** (i * j)) for j in range(n)), P(0)) * ninv * (gi ** i) for i in range(n)]
+        for i in range(n):
+            r = reduce_root(cback[i], "w", n)
+            # r must be a_i * g^i * gi^i
+            if not (r - a[i] * (g ** i) * (gi ** i)).is_zero():
+                ok = False
+        obs.append({"id": f"lemma.fft_round_trip[n={n}]", "unit": "lemma.fft_round_trip", "kind": "lemma",
+                    "text": "ifft(fft(a)) == a and coset_ifft(coset_fft(a)) == a * (g gi)^i for the contracts' DFT formulas", "status": "discharged" if ok else "failed",
+                    "detail": None, "backend": "ringcheck"})
+    return obs
+
+
+LEMMAS.append(lemma_fft_round_trip)
+
+
+# ---- parallel_butterfly_chunk: the thread count is an INSTANCE PARAMETER (rayon::current_num_threads() := T)
+def par_chunks(it, recv, a):
+    """ASSUMED (rayon): par_chunks_mut(k) yields the same disjoint chunks as chunks_mut(k); zip / for_each visit every tuple exactly
+    once; the closure touches only its own chunks => any schedule gives the result of the sequential order"""
+    from vlib.ring import VView
+    n, k = len(recv.items), a[0]
+    if not isinstance(k, int) or k <= 0:
+        raise OutsideFragment("par_chunks_mut with a non-positive / symbolic chunk length (would panic)")
+    return VIter([VView(recv, i, min(i + k, n)) for i in range(0, n, k)])
+
+
+def c_butterfly(m):
+    def c(it, recv, a):
+        """radix-2 butterfly of the two halves with twiddles w_m^j:  l_j' = l_j + w_m^j r_j,  r_j' = l_j - w_m^j r_j  (j < m),
+        the same for every thread count"""
+        chunk = a[0]
+        wm = P(Sym("wm"))
+        l = [P(chunk.items[j]) for j in range(m)]
+        r = [P(chunk.items[m + j]) for j in range(m)]
+        for j in range(m):
+            t = r[j] * (wm ** j)
+            chunk.items[j] = l[j] + t
+            chunk.items[m + j] = l[j] - t
+        return UNIT
+    return c
+
+
+for (m_, T_) in [(1, 1), (2, 1), (4, 3), (8, 4), (8, 17), (16, 5), (16, 16), (32, 17), (512, 16), (512, 17)]:
+    u = unit(f"kernels.parallel_butterfly_chunk[m={m_},threads={T_}]", DM, "alloc::parallel_butterfly_chunk",
+             [("chunk", mk_arr("c", 2 * m_)), ("m", (lambda m_=m_: m_)), ("w_m", sym("wm"))], c_butterfly(m_),
+             lambda res, args, ctx: {"chunk": list(args[0].items), "exits": list(ctx.exits)})
+    u.extra_contracts = dict(FFTC, **{"rayon::current_num_threads": (lambda it, recv, a, T_=T_: T_), ".par_chunks_mut": par_chunks,
+                                      ".par_iter": lambda it, recv, a: VIter(list(recv.items)) if isinstance(recv, VArr) else NotImplemented,
+                                      ".into_par_iter": lambda it, recv, a: VIter(list(recv.items)) if isinstance(recv, (VArr, VIter)) else NotImplemented})
+for m_ in (1, 2, 8):
+    u = unit(f"kernels.butterfly_chunk[m={m_}]", DM, "alloc::butterfly_chunk",
+             [("chunk", mk_arr("c", 2 * m_)), ("m", (lambda m_=m_: m_)), ("w_m", sym("wm"))], c_butterfly(m_),
+             lambda res, args, ctx: {"chunk": list(args[0].items), "exits": list(ctx.exits)})
+    u.extra_contracts = FFTC
